@@ -138,6 +138,12 @@ enum Fault {
     Truncate(u64),
     /// overwrite field `j` (1-based: primary offset j / block_offset of secondary entry j) with `v`
     Corrupt(usize, u64),
+    /// entries j .. j+n-1 (whole entries, clipped at the end of the file) filled with one byte value
+    Fill(usize, usize, u8),
+    /// n more entries appended: Some(b) = constant bytes, None = seeded garbage
+    Extend(usize, Option<u8>),
+    /// entries j .. j+n-1 written twice
+    Dup(usize, usize),
 }
 #[derive(Clone, Debug)]
 struct Case {
@@ -145,6 +151,9 @@ struct Case {
     chunk: usize, // 0-based index among the immutable chunk files
     file: &'static str,
     fault: Fault,
+    /// outcome logged as a summary (`big` event) - test database, or faults too large to hand
+    /// to the design model (100 000 extra slots)
+    summ: bool,
 }
 
 fn file_len(db: &DbSpec, chunk: usize, file: &str) -> u64 {
@@ -191,7 +200,7 @@ fn corrupt_case(rng: &mut Rng, db: &DbSpec, big: usize) -> Case {
         8 => rng.below(target_len + 1),
         _ => max - rng.below(2),
     };
-    Case { big, chunk, file, fault: Fault::Corrupt(j, v) }
+    Case { big, chunk, file, fault: Fault::Corrupt(j, v), summ: big != 0 }
 }
 
 /// whole-offset overwrites with boundary values at the given entry positions (1-based):
@@ -209,7 +218,59 @@ fn boundary_overwrites(db: &DbSpec, big: usize, chunk: usize, primary: bool, pos
     }
     for &j in positions {
         for &v in &vals {
-            cs.push(Case { big, chunk, file, fault: Fault::Corrupt(j, v) });
+            cs.push(Case { big, chunk, file, fault: Fault::Corrupt(j, v), summ: big != 0 });
+        }
+    }
+}
+
+/// (offset of the first entry, entry size, number of entries) of an index file
+fn geometry(db: &DbSpec, chunk: usize, file: &str) -> (usize, usize, usize) {
+    let len = file_len(db, chunk, file) as usize;
+    if file == "primary" {
+        (1, 4, (len - 1) / 4)
+    } else {
+        (0, ENTRY, len / ENTRY)
+    }
+}
+
+/// region faults on one index file: runs filled with 0x00 / 0xff (from every / sampled entry
+/// boundary: one entry, a few, up to the end), runs duplicated, padding appended
+fn region_cases(rng: &mut Rng, db: &DbSpec, big: usize, chunk: usize, file: &'static str, every: bool, thorough: bool, cs: &mut Vec<Case>) {
+    let (_, _, n) = geometry(db, chunk, file);
+    let summ = big != 0;
+    let positions: Vec<usize> = if every {
+        (1..=n).collect()
+    } else {
+        let mut p = vec![1, 2, n / 2, n - 1, n];
+        p.extend((0..(if thorough { 60 } else { 6 })).map(|_| 1 + rng.below(n as u64) as usize));
+        p
+    };
+    for &j in &positions {
+        let rest = n - j + 1;
+        let mut lens = vec![1usize, 2.min(rest), rest];
+        if !every {
+            lens.push((1 + rng.below(rest as u64) as usize).min(rest));
+        }
+        lens.dedup();
+        for &len in &lens {
+            for b in [0x00u8, 0xff] {
+                cs.push(Case { big, chunk, file, fault: Fault::Fill(j, len, b), summ });
+            }
+            // the design model knows duplication for the primary index only
+            if file == "primary" || summ {
+                cs.push(Case { big, chunk, file, fault: Fault::Dup(j, len), summ });
+            }
+        }
+    }
+    for extra in [1usize, 2, 8, 64] {
+        for b in [0x00u8, 0xff] {
+            cs.push(Case { big, chunk, file, fault: Fault::Extend(extra, Some(b)), summ });
+        }
+    }
+    // padding by many slots: summarised outcome only
+    for extra in [20_000usize, 100_000] {
+        for b in [Some(0x00u8), Some(0xff), None] {
+            cs.push(Case { big, chunk, file, fault: Fault::Extend(extra, b), summ: true });
         }
     }
 }
@@ -222,13 +283,13 @@ fn cases(seed: u64, thorough: bool, dbs: &[DbSpec]) -> Vec<Case> {
     for chunk in 0..small.imm() {
         for file in ["primary", "secondary"] {
             for k in 0..file_len(small, chunk, file) {
-                cs.push(Case { big: 0, chunk, file, fault: Fault::Truncate(k) });
+                cs.push(Case { big: 0, chunk, file, fault: Fault::Truncate(k), summ: false });
             }
         }
         let clen = file_len(small, chunk, "chunk");
         if thorough {
             for k in 0..clen {
-                cs.push(Case { big: 0, chunk, file: "chunk", fault: Fault::Truncate(k) });
+                cs.push(Case { big: 0, chunk, file: "chunk", fault: Fault::Truncate(k), summ: false });
             }
         } else {
             let mut ks: Vec<u64> = vec![0, 1, clen - 1];
@@ -239,7 +300,7 @@ fn cases(seed: u64, thorough: bool, dbs: &[DbSpec]) -> Vec<Case> {
                 ks.push(rng.below(clen));
             }
             for k in ks {
-                cs.push(Case { big: 0, chunk, file: "chunk", fault: Fault::Truncate(k) });
+                cs.push(Case { big: 0, chunk, file: "chunk", fault: Fault::Truncate(k), summ: false });
             }
         }
     }
@@ -252,6 +313,9 @@ fn cases(seed: u64, thorough: bool, dbs: &[DbSpec]) -> Vec<Case> {
         let ns = (file_len(small, chunk, "secondary") / ENTRY as u64) as usize;
         boundary_overwrites(small, 0, chunk, true, &(1..=np).collect::<Vec<_>>(), &mut cs);
         boundary_overwrites(small, 0, chunk, false, &(1..=ns).collect::<Vec<_>>(), &mut cs);
+        for file in ["primary", "secondary"] {
+            region_cases(&mut rng, small, 0, chunk, file, true, thorough, &mut cs);
+        }
     }
     // ---- the test database
     for (bi, db) in dbs.iter().enumerate().skip(1) {
@@ -277,7 +341,7 @@ fn cases(seed: u64, thorough: bool, dbs: &[DbSpec]) -> Vec<Case> {
                     ks.extend((0..n).map(|_| (rng.below(len / unit) * unit + 1 + rng.below(3)).saturating_sub(2).min(len - 1)));
                 }
                 for k in ks {
-                    cs.push(Case { big: bi, chunk, file, fault: Fault::Truncate(k) });
+                    cs.push(Case { big: bi, chunk, file, fault: Fault::Truncate(k), summ: true });
                 }
             }
         }
@@ -307,6 +371,9 @@ fn cases(seed: u64, thorough: bool, dbs: &[DbSpec]) -> Vec<Case> {
             sp.extend((0..k).map(|_| 1 + rng.below(ns as u64) as usize));
             boundary_overwrites(db, bi, chunk, true, &pp, &mut cs);
             boundary_overwrites(db, bi, chunk, false, &sp, &mut cs);
+            for file in ["primary", "secondary"] {
+                region_cases(&mut rng, db, bi, chunk, file, false, thorough, &mut cs);
+            }
         }
     }
     cs
@@ -316,6 +383,10 @@ fn fault_json(c: &Case) -> Value {
     match &c.fault {
         Fault::Truncate(k) => json!({"kind": "truncate", "chunk": c.chunk + 1, "file": c.file, "k": k}),
         Fault::Corrupt(j, v) => json!({"kind": "corrupt", "chunk": c.chunk + 1, "file": c.file, "j": j, "v": (*v).min(CAP)}),
+        Fault::Fill(j, n, b) => json!({"kind": "fill", "chunk": c.chunk + 1, "file": c.file, "j": j, "n": n, "v": if *b == 0 { 0 } else { CAP }}),
+        Fault::Extend(n, b) => json!({"kind": "extend", "chunk": c.chunk + 1, "file": c.file, "n": n,
+                                       "v": match b { Some(0) => json!(0), Some(_) => json!(CAP), None => json!("garbage") }}),
+        Fault::Dup(j, n) => json!({"kind": "dup", "chunk": c.chunk + 1, "file": c.file, "j": j, "n": n}),
     }
 }
 
@@ -337,10 +408,26 @@ fn setup_run_dir(dir: &Path, db: &DbSpec) {
     }
 }
 
-fn inject(dir: &Path, db: &DbSpec, c: &Case) {
+fn inject(dir: &Path, db: &DbSpec, c: &Case, case_no: usize) {
     let fname = format!("{}.{}", db.names[c.chunk], c.file);
     let mut data = read(&db.src.join(&fname));
+    let (base, es) = if c.file == "primary" { (1usize, 4usize) } else { (0, ENTRY) };
     match &c.fault {
+        Fault::Fill(j, n, b) => {
+            let (a, e) = (base + es * (j - 1), (base + es * (j - 1 + n)).min(data.len()));
+            data[a..e].fill(*b);
+        }
+        Fault::Extend(n, b) => match b {
+            Some(b) => data.extend(std::iter::repeat(*b).take(n * es)),
+            None => data.extend(Rng::new(case_no as u64 ^ 0xE47).bytes(n * es)),
+        },
+        Fault::Dup(j, n) => {
+            let (a, e) = (base + es * (j - 1), (base + es * (j - 1 + n)).min(data.len()));
+            let region = data[a..e].to_vec();
+            let tail = data.split_off(e);
+            data.extend(region);
+            data.extend(tail);
+        }
         Fault::Truncate(k) => data.truncate(*k as usize),
         Fault::Corrupt(j, v) => {
             if c.file == "primary" {
@@ -371,7 +458,17 @@ impl Line {
 
 /// read_blocks driven to exhaustion; items projected to [id, len]
 fn run_read(dir: &Path, ids: &HashMap<&[u8], i64>, cap: usize) -> (Vec<[i64; 2]>, String) {
-    let r = catch(|| read_blocks(dir).map(|it| drain(it, cap)).map_err(|e| format!("{e:?}")));
+    // the readers are iterative; a 512 KiB stack is plenty for them and makes recursion that is
+    // proportional to the number of slots in a file end in the stack guard (=> process abort,
+    // recorded by the parent) whatever the size of the main thread's stack
+    let r = std::thread::scope(|sc| {
+        std::thread::Builder::new()
+            .stack_size(512 << 10)
+            .spawn_scoped(sc, || catch(|| read_blocks(dir).map(|it| drain(it, cap)).map_err(|e| format!("{e:?}"))))
+            .unwrap_or_else(|e| die(&format!("spawn: {e}")))
+            .join()
+            .unwrap_or_else(|_| die("reader thread died"))
+    });
     let mut out = Vec::new();
     let mut note = String::new();
     match r {
@@ -435,9 +532,9 @@ pub fn child(args: &Args) {
     for (i, c) in cs.iter().enumerate().skip(from) {
         let db = &dbs[c.big];
         let dir = &dirs[c.big];
-        inject(dir, db, c);
+        inject(dir, db, c, i);
         let cap = db.total() + 64;
-        if c.big == 0 {
+        if !c.summ {
             out.ev(json!({"ev": "begin", "case": i, "small": true}));
             out.ev(json!({"ev": "fault", "fault": fault_json(c), "db": abstract_db(dir, db)}));
             let (o, note) = run_read(dir, &ids[0], cap);
